@@ -138,7 +138,12 @@ def first_order_match(pat, t, inst=None):
 
                 if heuristic_match:
                     # Heuristic matching: just assign pat.fun to t.fun.
-                    if t.is_comb():
+                    if t.is_comb() and not pat.fun.is_svar():
+                        # The head has further arguments: match them against
+                        # the corresponding arguments of t.
+                        match(pat.fun, t.fun)
+                        match(pat.arg, t.arg)
+                    elif t.is_comb():
                         try:
                             pat.head.T.match_incr(t.fun.get_type(), inst.tyinst)
                         except TypeMatchException:
